@@ -69,4 +69,42 @@ theorem dropWhile_append_of_all {α} (p : α → Bool) (l r : List α) (h : ∀ 
 theorem takeWhile_stop {α} (p : α → Bool) (a : α) (r : List α) (h : p a = false) : (a :: r).takeWhile p = [] := by
   simp [List.takeWhile_cons, h]
 
+theorem splitOn_joinWith (c : Byte) (parts : List Str) (hne : parts ≠ []) (h : ∀ p ∈ parts, c ∉ p) :
+    splitOn c (joinWith c parts) = parts := by
+  induction parts with
+  | nil => exact absurd rfl hne
+  | cons p ps ih =>
+    have hp := h p List.mem_cons_self
+    -- splitting a single piece without the separator
+    have single : ∀ (q : Str) (rest : List Str), c ∉ q → splitOn c (q ++ c :: joinWith c rest) = q :: splitOn c (joinWith c rest) := by
+      intro q rest hq
+      induction q with
+      | nil => simp [splitOn]
+      | cons x xs ihq =>
+        have hx : (x == c) = false := by
+          have : x ≠ c := fun hh => hq (by simp [hh])
+          simpa using this
+        have hxs : c ∉ xs := fun hh => hq (by simp [hh])
+        simp only [List.cons_append, splitOn, hx, Bool.false_eq_true, if_false, ihq hxs]
+    have alone : ∀ (q : Str), c ∉ q → splitOn c q = [q] := by
+      intro q hq
+      induction q with
+      | nil => rfl
+      | cons x xs ihq =>
+        have hx : (x == c) = false := by
+          have : x ≠ c := fun hh => hq (by simp [hh])
+          simpa using this
+        have hxs : c ∉ xs := fun hh => hq (by simp [hh])
+        simp only [splitOn, hx, Bool.false_eq_true, if_false, ihq hxs]
+    cases ps with
+    | nil => simp only [joinWith]; exact alone p hp
+    | cons q qs =>
+      simp only [joinWith]
+      rw [single p (q :: qs) hp]
+      rw [ih (by simp) (fun x hx => h x (List.mem_cons_of_mem _ hx))]
+
+theorem startsWith_append (pre rest : Str) : startsWith (pre ++ rest) pre = true := by
+  unfold startsWith; simp
+
+
 end Econf
